@@ -264,13 +264,23 @@ def check_l1(run: Run, prog: Program) -> dict[str, Ledgers]:
             # nothing is paired with the cells and nothing was found wrong either: the rule is vacuous here
             raise AnalysisError(f"{fn.qual}: no ledger identified (mirror/complement)")
         # a mirror ledger starts at zero (no cell exists yet) or continues another mirror
+        l1cfg = CFG(fn.node, fn.file)
+        l1pv = Prov(prog, fn, l1cfg)
         for m in sorted(lg.mirrors):
             plain = [st for st in walk_no_nested(fn.node) if isinstance(st, (ast.Assign, ast.AnnAssign))
                      and getattr(st, "value", None) is not None and any(u(w) == m for w in _targets(st))
                      and lg.name_update(st) is None]
-            ok = all(isinstance(st, (ast.Assign, ast.AnnAssign)) and not isinstance(
-                st.targets[0] if isinstance(st, ast.Assign) else st.target, ast.Tuple) and (
-                    lg.te.ev(st.value).is_zero() or lg.te.ev(st.value).as_atom() in lg.mirrors) for st in plain)
+            def starts_ok(st: ast.stmt) -> bool:
+                if isinstance(st.targets[0] if isinstance(st, ast.Assign) else st.target, ast.Tuple):  # type: ignore[attr-defined]
+                    return False
+                v = lg.te.ev(st.value)  # type: ignore[attr-defined]
+                if v.is_zero() or v.as_atom() in lg.mirrors:
+                    return True
+                # handed back from a spliced helper: resolve the value through its single definitions
+                sites = l1cfg.nodes_of(st)
+                return bool(sites) and l1pv.term(sites[0], st.value).as_atom() in lg.mirrors  # type: ignore[attr-defined]
+
+            ok = all(starts_ok(st) for st in plain)
             run.check(ok and bool(plain), "C01.L1", fn.qual, f"{m} = 0",
                       f"the mirror ledger `{m}` does not start at zero: the reported remainder is off by its "
                       "initial value", node=(plain or [fn.node])[0], file=fn.file,
@@ -931,12 +941,40 @@ def check_sign(run: Run, prog: Program) -> None:
     # selector: `if supply: A else: B`, `if not supply: B; continue`, per-statement ternaries and any
     # nesting / unswitching of the loops give the same two tables {cell -> value expression}
     def table_for(flag_value: bool) -> dict[str, list[tuple[ast.AST, ast.AST]]]:
-        out: dict[str, list[tuple[ast.AST, ast.AST]]] = {}
+        import copy
 
-        def pick(e: ast.AST) -> ast.AST:
-            while isinstance(e, ast.IfExp) and (pol := polarity(e.test)) is not None:
-                e = e.body if pol == flag_value else e.orelse
-            return e
+        out: dict[str, list[tuple[ast.AST, ast.AST]]] = {}
+        env: dict[str, ast.AST] = {}
+
+        class Sel(ast.NodeTransformer):
+            """Substitute the locals bound so far and resolve conditional expressions on the selector."""
+
+            def visit_Name(self, node: ast.Name) -> ast.AST:  # noqa: N802
+                if isinstance(node.ctx, ast.Load) and node.id in env:
+                    return copy.deepcopy(env[node.id])
+                return node
+
+            def visit_IfExp(self, node: ast.IfExp) -> ast.AST:  # noqa: N802
+                pol = polarity(node.test)
+                if pol is not None:
+                    return self.visit(node.body if pol == flag_value else node.orelse)
+                return self.generic_visit(node)
+
+        def val(e: ast.AST) -> ast.AST:
+            return Sel().visit(copy.deepcopy(e))
+
+        def assign(tgt: ast.AST, v: ast.AST, st: ast.AST) -> None:
+            if isinstance(tgt, (ast.Tuple, ast.List)) and isinstance(v, (ast.Tuple, ast.List)) and len(tgt.elts) == len(v.elts):
+                for t, x in zip(tgt.elts, v.elts):
+                    assign(t, x, st)
+            elif isinstance(tgt, ast.Name):
+                if not any(isinstance(x, (ast.Dict, ast.List, ast.Set, ast.DictComp, ast.ListComp, ast.SetComp,
+                                          ast.GeneratorExp, ast.Call, ast.Await)) for x in ast.walk(v)):
+                    env[tgt.id] = v   # a pure alias / tuple of reads
+                else:
+                    env.pop(tgt.id, None)
+            elif isinstance(tgt, ast.Subscript):
+                out.setdefault(u(val(tgt)), []).append((v, st))
 
         def block(stmts: list[ast.stmt]) -> bool:
             """False when the suite is left early (continue / break / return / raise)."""
@@ -960,8 +998,10 @@ def check_sign(run: Run, prog: Program) -> None:
                     if not block(st.body):
                         return False
                     continue
-                if isinstance(st, ast.Assign) and len(st.targets) == 1 and isinstance(st.targets[0], ast.Subscript):
-                    out.setdefault(u(st.targets[0]), []).append((pick(st.value), st))
+                if isinstance(st, ast.Assign) and len(st.targets) == 1:
+                    assign(st.targets[0], val(st.value), st)
+                elif isinstance(st, ast.AnnAssign) and st.value is not None:
+                    assign(st.target, val(st.value), st)
             return True
 
         block(ibv.node.body)
@@ -976,7 +1016,7 @@ def check_sign(run: Run, prog: Program) -> None:
     pairs = 0
     for k in sorted(set(sup_t) & set(con_t)):
         (sv, node), cv = sup_t[k][0], con_t[k][0][0]
-        if sv is cv:
+        if u(sv) == u(cv):
             continue  # a cell that is not selected by the flag at all
         pairs += 1
         sides = (_leaves(bound_form(sv)), _leaves(bound_form(cv)))
